@@ -84,11 +84,15 @@ theorem npm_trimLeft : NPM trimLeftM := by
 
 theorem npm_trimRight : NPM trimRightM := fun _ => .ret _
 
+theorem npm_writeVerbatim (b : Bytes) : NPM (writeVerbatimM b) := by
+  unfold writeVerbatimM
+  exact npm_bind (npm_write _) (fun _ => npm_bind (npm_write b) (fun _ => npm_flush))
+
 theorem npm_writeAll : ∀ cs, NPM (writeAllM cs)
   | [] => npm_pure ()
   | c :: cs => by
     unfold writeAllM
-    exact npm_bind (npm_write c) (fun _ => npm_writeAll cs)
+    exact npm_bind (npm_writeVerbatim c) (fun _ => npm_writeAll cs)
 
 theorem runPure_noPanic {α} {p : Prog α} (hp : NoPanicProg p) : ∀ w, p.runPure.2 ≠ .panic w := by
   induction hp with
